@@ -9,21 +9,39 @@ Require Import Aurora.Base.Corr.
 Require Export Aurora.C40.Model.
 Local Open Scope N_scope.
 
+(** monomorphic constructors for the generated case files (cheap to type-check) *)
+Inductive dl := D (n : nid) (k : key) (m : msg).              (* one Notify call *)
+Inductive kreg := KR (k : key) (l : list nid).                (* one registry entry *)
+Inductive item := It (p : list N) (m : msg).                  (* one PublishArray message *)
+Definition dl_t (d : dl) : nid * key * msg := let 'D n k m := d in (n, k, m).
+Definition kreg_t (e : kreg) : key * list nid := let 'KR k l := e in (k, l).
+Definition item_t (i : item) : list N * msg := let 'It p m := i in (p, m).
+
 Inductive hop :=
 | HSub (n : nid) (ns kind param : list N)       (* Subscribe(notifier n, ns, kind, param) *)
 | HClose (n : nid)                              (* close n's error channel *)
 | HWake (i : nat)                               (* a sent value wakes the i-th blocked waiter *)
 | HStart                                        (* the process goroutine is started (paused prefix ends) *)
 | HPub (ns kind param : list N) (m : msg)       (* Publish(ns, kind, param, m) *)
+| HPubArr (ns kind : list N) (items : list item)
+                                                (* PublishArray(ns, kind, field, messages): an item is
+                                                   (the string the field holds or "" , message id) *)
 | HSnap.                                        (* dump of keyToNotifier *)
 
 Inductive hobs :=
 | ONone
-| OLog (l : list (nid * key * msg))             (* Notify calls made by the Publish, in order *)
-| OSnap (r : list (key * list nid)).            (* sorted by key by the harness *)
+| OLog (l : list dl)                            (* Notify calls made by the Publish, in order *)
+| OLogArr (l : list dl)                         (* Notify calls of a PublishArray: the keys come in Go map
+                                                   order, so the log is compared key by key *)
+| OSnap (r : list kreg).                        (* sorted by key by the harness *)
+
+(** the same observations in the model's own types *)
+Inductive mobs :=
+| MNone | MLog (l : list (nid * key * msg)) | MLogArr (l : list (nid * key * msg)) | MSnap (r : list (key * list nid)).
 
 (** the first op list runs while process is not started (empty for a normal case) *)
-Inductive case := Case (paused : bool) (ops : list (hop * hobs)).
+Inductive hstep := St (o : hop) (observed : hobs).
+Inductive case := Case (paused : bool) (ops : list hstep).
 
 (** process runs until both queues are empty; an unsubscription is taken whenever one is pending
     (with the repaired code the result does not depend on that choice) *)
@@ -40,17 +58,23 @@ Fixpoint settle (fuel : nat) (s : st) : st :=
 Definition quiesce (paused : bool) (s : st) : st :=
   if paused then s else settle (S (length (subq s) + length (unsubq s))) s.
 
-Definition exec (paused : bool) (s : st) (o : hop) : bool * st * hobs :=
+Definition exec (paused : bool) (s : st) (o : hop) : bool * st * mobs :=
   match o with
-  | HSub n ns kind param => (paused, quiesce paused (fst (step s (ASubscribe (sub_key ns kind param) n))), ONone)
-  | HClose n => (paused, quiesce paused (fst (step s (AClose n))), ONone)
-  | HWake i => (paused, quiesce paused (fst (step s (AWake i))), ONone)
-  | HStart => (false, quiesce false s, ONone)
-  | HPub ns kind param m => let '(s', l) := run s (publish ns kind param m) in (paused, s', OLog l)
-  | HSnap => (paused, s, OSnap (regs s))
+  | HSub n ns kind param => (paused, quiesce paused (fst (step s (ASubscribe (sub_key ns kind param) n))), MNone)
+  | HClose n => (paused, quiesce paused (fst (step s (AClose n))), MNone)
+  | HWake i => (paused, quiesce paused (fst (step s (AWake i))), MNone)
+  | HStart => (false, quiesce false s, MNone)
+  | HPub ns kind param m => let '(s', l) := run s (publish ns kind param m) in (paused, s', MLog l)
+  | HPubArr ns kind items =>
+      let '(s', l) := run s (array_actions (array_groups ns kind (map item_t items))) in (paused, s', MLogArr l)
+  | HSnap => (paused, s, MSnap (regs s))
   end.
 
 Definition nids_eqb := list_eqb N.eqb.
+Definition to_mobs (o : hobs) : mobs :=
+  match o with
+  | ONone => MNone | OLog l => MLog (map dl_t l) | OLogArr l => MLogArr (map dl_t l) | OSnap r => MSnap (map kreg_t r)
+  end.
 Definition delivery_eqb (a b : nid * key * msg) : bool :=
   (fst (fst a) =? fst (fst b)) && keyb (snd (fst a)) (snd (fst b)) && (snd a =? snd b).
 
@@ -59,20 +83,26 @@ Definition snap_eqb (r obs : list (key * list nid)) : bool :=
   Nat.eqb (length r) (length obs) &&
   forallb (fun e => nids_eqb (lookup r (fst e)) (snd e) && negb (is_empty (snd e))) obs.
 
-Definition hobs_eqb (m o : hobs) : bool :=
+Definition of_key (k : key) (l : list (nid * key * msg)) := filter (fun d => keyb (snd (fst d)) k) l.
+Definition per_key_eqb (a b : list (nid * key * msg)) : bool :=
+  Nat.eqb (length a) (length b) &&
+  forallb (fun d => list_eqb delivery_eqb (of_key (snd (fst d)) a) (of_key (snd (fst d)) b)) (a ++ b).
+
+Definition mobs_eqb (m o : mobs) : bool :=
   match m, o with
-  | ONone, ONone => true
-  | OLog a, OLog b => list_eqb delivery_eqb a b
-  | OSnap a, OSnap b => snap_eqb a b
+  | MNone, MNone => true
+  | MLog a, MLog b => list_eqb delivery_eqb a b
+  | MLogArr a, MLogArr b => per_key_eqb a b
+  | MSnap a, MSnap b => snap_eqb a b
   | _, _ => false
   end.
 
-Fixpoint replay (paused : bool) (s : st) (ops : list (hop * hobs)) (i : nat) : option (nat * hobs * hobs) :=
+Fixpoint replay (paused : bool) (s : st) (ops : list hstep) (i : nat) : option (nat * mobs * mobs) :=
   match ops with
   | [] => None
-  | (o, observed) :: t =>
+  | St o observed :: t =>
       let '(p', s', m) := exec paused s o in
-      if hobs_eqb m observed then replay p' s' t (S i) else Some (i, m, observed)
+      if mobs_eqb m (to_mobs observed) then replay p' s' t (S i) else Some (i, m, to_mobs observed)
   end.
 
 Definition check_case (c : case) : bool :=
